@@ -21,11 +21,31 @@ CLI: ~2 % of the inputs are also given to the real `dora compile -c main.dora -o
 a package file, or status 1 with `error:` messages on stderr, no package file, no `panicked at`, no signal
 (c06:cli:<class>; a CLI panic is reported under the same panic@ key as in-process).
 
-Families (DESIGN.md 2.4): the 16 of vhc::textgen (corpus file as is, CR/CRLF/BOM, token soup, random UTF-8, token
-delete/dup/swap/replace/insert, chunk delete, truncate, splice, delimiter flip, nesting <= 200, mixed line
-endings, multi-byte insertion) plus 7 of vh-front that stay close to the grammar so that the semantic phases
-are exercised on parse-clean text (grammar-directed random programs and their mutants, identifier / literal /
-operator / keyword replacement, concatenated files).  `--opt families=all|a,b,c`, `--opt count=N`.
+Families (DESIGN.md 2.4; generators in harness/vhc/src/textgen.rs and harness/vh-front/src/fams.rs):
+  default  corpus (every repository .dora file as it is, dense walk starting at a seed-dependent file), corpus-crlf
+           (CR / CRLF / BOM variants), line-endings (mixed), multibyte (multi-byte / astral characters inserted into
+           identifiers, strings, comments), soup (token soup), utf8-random, truncate (token or byte boundary), nest
+           (delimiters / blocks / lambdas / unary minus nested up to 200 deep, 25 % unbalanced);
+  mutants  tok-delete, tok-dup, tok-swap, tok-replace, tok-insert, chunk-delete, splice, delim-flip, ident-swap, lit-swap,
+           op-swap, kw-swap (token-level mutants of repository files);
+  wide     gen-prog (grammar-directed random programs), gen-prog-mutant, item-splice (concatenated files).
+`--opt families=default|mutants|wide|all|a,b,c`, `--opt count=N`, `--opt bases=all|run` (run: mutating families do not
+start from test/sema/**), `--opt cli=0` (in-process part only), `--opt cli_every=K`.
+
+NARROWING (DESIGN.md 4.3).  The check runs the `default` families only.  Measured on the pinned tree (86805cfb4):
+  * all 23 families, 100 000 inputs (seed 101): 20 344 inputs (20 %) panic at 57 distinct sites, several seen once;
+  * with the 19 proposed repairs (proposed_fixes/c06-01..19, which remove 36 of the pinned tree's keys, all parser sites
+    included): all families, 97 632 inputs: 848 panics (0.9 %) at 29 sites; the `mutants` + `default` families, 3 x 6 000
+    inputs: 1, 4 and 2 *new* sites per run; that is about one new site per 2 000 - 3 000 inputs with no sign of
+    levelling off: the semantic phases (generic traits, associated types, impl matching, default-method
+    specialisation) and the bytecode generator still contain many assertions / unreachable!() / expect() that "almost
+    valid" programs reach, nearly every panic at a different site.  A key space that does not saturate makes a noisy
+    check, so the `mutants` and `wide` families are exploration modes (`--opt families=all`); every VIOLATION they
+    print is a genuine front-end defect, but they are not part of the registered command.
+  * the `default` families reach a bounded set: the bytecode generator / verifier failures on *accepted* repository
+    files that the repository itself only ever type-checks (test/sema `//= ok` files) and their layout variants, plus a
+    few checker sites reached by truncation and unbalanced nesting; these are listed in known_findings.json.
+The parser alone (C16 runs all 16 textgen families through it) has no panic site left after c06-01..05.
 """
 import json
 import os
@@ -224,10 +244,11 @@ def run(ctx):
             for e in json.load(f)["findings"]:
                 if e["property"] == "C06" and e.get("status") == "known":
                     ctx._known.setdefault(e["key"], e["what"])
-    ctx.rule = ("case = (family, text) generated from (seed, index); 23 families: corpus file as is, CR/CRLF/BOM variants, "
-                "token soup, random UTF-8, token delete/dup/swap/replace/insert, chunk delete, truncate, splice, delimiter "
-                "flip, nesting <= 200, mixed line endings, multi-byte insertion, grammar-directed random programs and "
-                "their mutants, identifier/literal/operator/keyword replacement, concatenated files; every case is "
+    ctx.rule = ("case = (family, text) generated from (seed, index); default families: repository file as is (dense walk from a "
+                "seed-dependent file), CR/CRLF/BOM variants, mixed line endings, multi-byte insertion, token soup, random UTF-8, "
+                "truncation, nesting <= 200 (25 % unbalanced); exploration families (--opt families=all): token "
+                "delete/dup/swap/replace/insert, chunk delete, splice, delimiter flip, identifier/literal/operator/keyword "
+                "replacement, grammar-directed random programs and their mutants, concatenated files; every case is "
                 "evaluated by the full in-process pipeline (check_program, diagnostic rendering, emit_program if accepted); "
                 "distinct = distinct input text hash; non-trivial = the pipeline was entered with that text (all are)")
     ctx.assumptions = ["inputs bounded by 64 KiB (repository files excepted) and nesting depth 200",
@@ -238,7 +259,9 @@ def run(ctx):
                        "harness built with panic=unwind, opt-level 2, no debug assertions (the shipped profile is panic=abort)"]
     ctx.required_counters = ["cases", "parse_clean", "check_ok", "emitted"] + (["cli_runs"] if with_cli else [])
     clidir = scratch("c06-cli")
-    kv = {"families": fams, "cli_every": cli_every if with_cli else 0, "clidir": clidir}
+    bases = opts.get("bases", "all")
+    base_kv = {"bases": bases}
+    kv = {"families": fams, "bases": bases, "cli_every": cli_every if with_cli else 0, "clidir": clidir}
     r = inproc.run_sharded("vh-front", "front", ctx.seed, count, "c06", timeout=ctx.pick(900, 3000), kv=kv)
 
     # ---- in-process results -------------------------------------------------------------------------------
@@ -293,49 +316,62 @@ def run(ctx):
     slow = [d for d in r.deaths if d["rc"] == EXIT_SLOW and d["idx"] is not None]
     dead = [d for d in r.deaths if d["rc"] != EXIT_SLOW]
 
+    # Re-check ended children alone. One confirmed case per class is enough for a verdict, so at most
+    # MAX_RECHECK cases of each class (smallest inputs first) are re-run; the others are listed as not re-checked.
+    MAX_RECHECK = 4
+    slow.sort(key=lambda d: len(d["input"]))
+    dead.sort(key=lambda d: len(d["input"]))
+    for d in slow[MAX_RECHECK:] + [d for d in dead[MAX_RECHECK:] if d["idx"] is not None]:
+        ctx.inconc("case %s ended its child (rc=%s) and was not re-checked alone (more than %d such cases)" % (d["idx"], d["rc"], MAX_RECHECK))
+    slow, dead = slow[:MAX_RECHECK], [d for d in dead if d["idx"] is None] + [d for d in dead if d["idx"] is not None][:MAX_RECHECK]
+
+    def verdict_of_alone_run(d, rc, out, bad, limit_note):
+        """Classifies the outcome of running case d alone (shared by the slow and the dead class)."""
+        idx = d["idx"]
+        if rc is None:
+            ctx.inconc("case %s: the re-run alone hit the wall-clock watchdog" % idx)
+        elif rc == EXIT_SLOW:
+            ctx.violation("c06:nontermination",
+                          "case %s does not terminate within the CPU-time bound when run alone %s: %s" % (idx, limit_note, out[-200:]),
+                          files={"input.dora": d["input"]})
+        elif rc != 0 and "memory allocation of" in (out or ""):
+            ctx.violation("c06:nontermination",
+                          "case %s exhausted the 3 GiB address-space bound of the harness child when run alone (unbounded allocation, "
+                          "i.e. a loop that does not terminate; a normal input needs < 0.5 GiB): %s" % (idx, out[-300:]),
+                          files={"input.dora": d["input"]})
+        elif rc != 0:
+            ctx.violation("c06:child-death:rc=%s" % rc,
+                          "the front end ended the process (rc=%s; abort / stack overflow) on case %s: %s"
+                          % (rc, idx, (out or d["log"])[-500:]), files={"input.dora": d["input"]})
+        else:
+            return False    # ran to completion
+        return True
+
     def recheck_slow(d):
         m = re.search(r"limit_ms=(\d+)", d.get("log", ""))
         limit = int(m.group(1)) if m else 15000
-        return d, limit, harness_alone(ctx, d["idx"], count, fams, {"cpu_limit_ms": limit * 10}, "slow")
+        return d, limit, harness_alone(ctx, d["idx"], count, fams, dict(base_kv, cpu_limit_ms=limit * 10), "slow")
 
-    for d, limit, (rc, out, bad) in execu.pmap(recheck_slow, slow, workers=8):
+    for d, limit, (rc, out, bad) in execu.pmap(recheck_slow, slow, workers=4):
         ctx.observe("slow%d" % d["idx"])
         ctx.count("slow_inputs")
-        if rc == EXIT_SLOW:
-            ctx.violation("c06:nontermination",
-                          "case %d used more than %d ms CPU and, run alone, more than %d ms (200 x and 2000 x the cost of a "
-                          "trivial program): %s" % (d["idx"], limit, limit * 10, out[-200:]),
-                          files={"input.dora": d["input"]})
-        elif rc is None:
-            ctx.inconc("case %d: slow, and the re-run alone hit the wall-clock watchdog" % d["idx"])
-        else:
-            ctx.inconc("case %d: slower than %d ms CPU but finished within %d ms when run alone" % (d["idx"], limit, limit * 10))
+        note = "(%d ms, i.e. 2000 x the cost of a trivial program; %d ms in the sharded run)" % (limit * 10, limit)
+        if not verdict_of_alone_run(d, rc, out, bad, note):
+            ctx.inconc("case %d: slower than %d ms CPU in the sharded run but finished within %d ms when run alone" % (d["idx"], limit, limit * 10))
             for o in bad:
                 ctx.violation(o["key"], "%s [case %d, run alone]" % (o["what"], o["idx"]), files={"input.dora": o.get("input", "")})
 
     def recheck_dead(d):
         if d["idx"] is None:
             return d, (None, "", [])
-        return d, harness_alone(ctx, d["idx"], count, fams, {}, "dead")
+        return d, harness_alone(ctx, d["idx"], count, fams, base_kv, "dead")
 
-    for d, (rc, out, bad) in execu.pmap(recheck_dead, dead, workers=8):
+    for d, (rc, out, bad) in execu.pmap(recheck_dead, dead, workers=4):
         if d["idx"] is None:
             ctx.inconc("a harness child died (rc=%s) before its first case: %s" % (d["rc"], d["log"][-300:]))
             continue
         ctx.observe("dead%d" % d["idx"])
-        if rc is not None and rc != 0 and rc != EXIT_SLOW and "memory allocation of" in (out or ""):
-            ctx.violation("c06:nontermination",
-                          "case %s exhausted the 3 GiB address-space bound of the harness child (unbounded allocation, i.e. a loop "
-                          "that does not terminate; a normal input needs < 0.5 GiB): %s" % (d["idx"], out[-300:]),
-                          files={"input.dora": d["input"]})
-        elif rc is not None and rc != 0 and rc != EXIT_SLOW:
-            ctx.violation("c06:child-death:rc=%s" % rc,
-                          "the front end ended the process (rc=%s; abort / stack overflow / allocation failure) on case %s: %s"
-                          % (rc, d["idx"], (out or d["log"])[-500:]), files={"input.dora": d["input"]})
-        elif rc == EXIT_SLOW:
-            ctx.violation("c06:nontermination", "case %d: child died (rc=%s) and alone it exceeded the CPU bound" % (d["idx"], d["rc"]),
-                          files={"input.dora": d["input"]})
-        else:
+        if not verdict_of_alone_run(d, rc, out, bad, "(default bound)"):
             ctx.inconc("child died (rc=%s) on case %s but the case passes when run alone" % (d["rc"], d["idx"]))
     for s in r.timeouts:
         ctx.inconc("shard %d hit the wall-clock watchdog" % s)
